@@ -199,7 +199,8 @@ def replay_load(tag, rec):
     impl.ensure_repo()
     cl = Clauses(rec)
     o = rec['o']
-    path = impl.write_text(o['text'])
+    # every file of one worker process is written to the SAME path: the reader has to read what is there now
+    path = impl.write_text(o['text'], name='instance.txt')
     info = {'hash': rec.get('_h'), 'stab': False, 'pc': False, 'two': o['twopl'], 'nF': 0, 'nF0': 0, 'nsolves': 0, 'ncrit': 0,
             'sample': {'argv': argv_of(o, '<file>')[2:], 'file': bytes(o['text']).decode('latin-1'), 'denoted': rec['inst']}}
     try:
